@@ -676,6 +676,8 @@ def mk_bin(op, a, b, opts=None):
         if opts is not None and opts.ordered:
             return (op, (a, b))
         commut = op in AC_OPS or (opts is not None and opts.plus_commutes)
+        if op == '+' and commut and any(kind_of(x) == 'seq' for x in items):
+            commut = False          # a concatenation keeps its order whatever the arithmetic options say
         if op == '+' and not commut:
             ks = [kind_of(x) for x in items]
             if 'num' in ks and 'seq' not in ks:
@@ -698,6 +700,17 @@ def mk_bin(op, a, b, opts=None):
                 if it2 and (op != '*' or True):
                     items = it2
             items.sort(key=skey)
+        if op == '+' and not commut and len(items) > 1:
+            # adjacent list / tuple literals of a concatenation are one literal
+            merged = []
+            for x in items:
+                if merged and x[0] in ('list', 'tuple') and merged[-1][0] == x[0] and len(merged[-1][1]) + len(x[1]) <= MAX_FOLD_LEN:
+                    merged[-1] = (x[0], merged[-1][1] + x[1])
+                elif x[0] in ('list', 'tuple') and not x[1] and len(items) > 1:
+                    continue            # + []
+                else:
+                    merged.append(x)
+            items = merged or [items[0]]
         if len(items) == 1:
             return items[0]
         return (op, tuple(items))
@@ -940,6 +953,14 @@ def get_idx(seq, idx):
     tag = seq[0]
     if idx == REV and tag == 'idx' and seq[2] == REV:
         return seq[1]                      # x[::-1][::-1]
+    if idx == REV and tag == 'comp' and seq[1] == 'list' and len(seq[4]) == 1 and not seq[4][0][1]:
+        it_ = seq[4][0][0]
+        if it_[0] == 'range' and it_[1] == C(0) and it_[3] == C(1):
+            # [e(k) for k in range(n)][::-1]  is  [e(n-1-k) for k in range(n)]
+            bv_ = ('bv', seq[2], 0, 'num')
+            o_ = Opts(plus_commutes=True)
+            rk_ = mk_bin('+', mk_bin('+', it_[2], C(-1), o_), mk_neg(bv_, o_), o_)
+            return mk_comp('list', seq[2], substitute(seq[3], {bv_: rk_}), seq[4])
     if tag == 'call' and seq[1] == ('b', 'list') and len(seq[2]) == 1 and not seq[3] and canon_seq(seq[2][0]) is not None \
             and seq[2][0][0] != 'call':
         return get_idx(seq[2][0], idx) if not (idx[0] == 'slice') else ('idx', seq, idx)
@@ -1498,6 +1519,11 @@ class PE:
                 if r is not None:
                     return r
         f = self.ev(n.func, env)
+        if isinstance(n.func, ast.Attribute) and f[0] == 'attr' and f[2] == n.func.attr:
+            # a method is called on the object as it is NOW: attribute / item stores made so far stay with the receiver
+            recv = self.ev(n.func.value, env)
+            if recv != f[1] and recv[0] in ('obj', 'upd', 'mut'):
+                f = ('attr', recv, n.func.attr)
         args = tuple(self.ev(a, env) for a in n.args)
         kw = []
         for k in n.keywords:
@@ -1544,6 +1570,8 @@ class PE:
                     new = ('list', ())
             except (IndexError, ValueError):
                 new = None
+        if new is None and meth == 'append' and len(args) == 1 and owned_fresh(cur) and cur[0] != 'mut':
+            new = mk_bin('+', cur, ('list', (args[0],)), self.opts)      # l.append(x) on a list the function created is l = l + [x]
         if new is None and meth == 'reverse' and not args and owned_fresh(cur):
             new = get_idx(cur, ('slice', NONE, NONE, C(-1)))        # l.reverse()  is  l = l[::-1]  on a list the function created
         if new is None:
